@@ -426,6 +426,55 @@ C15_SameLevel == AfterGw => /\ FirstSeen.W = Ev.W /\ FirstSeen.WMIN = Ev.WMIN /\
                             /\ FirstSeen.WNOR = Ev.WNOR /\ FirstSeen.WRED = Ev.WRED
 C15_All == C15_Order /\ C15_FcLePv /\ C15_Threshold /\ C15_Saturated /\ C15_SameLevel
 
+
+\* =============================================================================================
+\* C10  scheduled management: exactly once, in schedule order, on time, in full
+\*      header: Gen.fert = <<<<date, kg, idx>>..>>, Gen.irr = <<<<date, mm, ppm>>..>>, Gen.till = <<<<date, cm>>..>>,
+\*      Gen.rot = <<<<sow, harv>>..>> (entry 1 = initial crop), Gen.fertExp[i] = table amounts of fert event i
+\*      (limbs, 10^-9 kg N/ha).  Verdict domain: events dated in [begin + 1, end - 2]; earlier ones must be ignored.
+\* =============================================================================================
+AtRunEnd == l > 1 /\ Ev.ev = "run.end"
+HasSched == ix.gen > 0 /\ Has(Gen, "fert")
+InDom(d) == d >= Cfg.begin + 1 /\ d <= Cfg.ende - 2
+SelDates(s) == SelectSeq(s, LAMBDA e : InDom(e[1]))
+\* irrigation: once, in order, on its date, with its amount
+C10_Irrigation == (AtRunEnd /\ Ev.ok /\ HasSched) =>
+   LET exp == SelDates(Gen.irr) IN
+   /\ Len(hist.irr) = Len(exp)
+   /\ \A i \in 1..Len(exp) : i <= Len(hist.irr) => hist.irr[i][1] = exp[i][1] /\ hist.irr[i][2] = exp[i][2] * 1000000
+\* the irrigation water enters that day's infiltration: effective irrigation = mm / 10 cm, and it is part of the day's rain
+C10_IrrigationAmount == (AfterInputs /\ Ev.irrigated) => Ev.effirr = (Ev.irrmm \div 1000000) * 100000 /\ Ev.rain >= Ev.effirr
+\* fertilisation: slot 0 = residues of the initial crop on the day after the start, then the scheduled events once,
+\* in order, the day after their date (the second of two on one date a day later)
+FertExec == SelectSeq(hist.fert, LAMBDA e : e[2] > 0)          \* executed schedule slots (slot index > 0)
+C10_Fertilisation == (AtRunEnd /\ Ev.ok /\ HasSched /\ ~Cfg.autoFert) =>
+   LET exp == SelDates(Gen.fert) IN
+   /\ Len(FertExec) = Len(exp)
+   /\ \A i \in 1..Len(exp) : i <= Len(FertExec) =>
+         /\ FertExec[i][2] = i                                   \* schedule order (slot i of the array as read)
+         /\ FertExec[i][1] >= exp[i][1] /\ FertExec[i][1] <= exp[i][1] + 2
+         /\ (FertExec[i][1] = exp[i][1] + 2 => i > 1 /\ exp[i - 1][1] = exp[i][1])
+\* ... in full: the amounts read for slot i are the table amounts of event i (quantity x table x global factor)
+C10_FertAmounts == (l > 1 /\ Ev.ev = "run.config" /\ HasSched /\ ~Ev.autoFert) =>
+   LET kept == SelectSeq(Gen.fert, LAMBDA e : e[1] >= Ev.begin) IN
+   \A i \in 1..Len(kept) : (i + 1 <= Len(Ev.NDIR)) =>
+       LET x == Gen.fertExp[kept[i][3]] IN
+       /\ LAbsLe(LSub(Ev.NDIR[i + 1], x.ndir), TolN) /\ LAbsLe(LSub(Ev.NH4N[i + 1], x.nh4), TolN)
+       /\ LAbsLe(LSub(Ev.NSAS[i + 1], x.nfast), TolN) /\ LAbsLe(LSub(Ev.NLAS[i + 1], x.nslow), TolN)
+\* tillage: once, in order, the day after its date
+C10_Tillage == (AtRunEnd /\ Ev.ok /\ HasSched) =>
+   LET exp == SelDates(Gen.till) IN
+   /\ Len(hist.till) = Len(exp)
+   /\ \A i \in 1..Len(exp) : i <= Len(hist.till) =>
+         /\ hist.till[i][1] >= exp[i][1] /\ hist.till[i][1] <= exp[i][1] + 2
+         /\ (hist.till[i][1] = exp[i][1] + 2 => i > 1 /\ exp[i - 1][1] = exp[i][1])
+\* sowing and harvest of the rotation entries inside the period (fixed dates)
+C10_SowHarvest == (AtRunEnd /\ Ev.ok /\ HasSched /\ ~Cfg.autoMan /\ ~Cfg.autoHar) =>
+   LET exp == SelectSeq(Tail(Gen.rot), LAMBDA e : e[2] <= Cfg.ende) IN
+   /\ Len(hist.harv) = Len(exp)
+   /\ \A i \in 1..Len(exp) : (i <= Len(hist.harv) /\ i <= Len(hist.sow)) => hist.sow[i][1] = exp[i][1] /\ hist.harv[i][1] = exp[i][2]
+C10_All == C10_Irrigation /\ C10_IrrigationAmount /\ C10_Fertilisation /\ C10_FertAmounts /\ C10_Tillage /\ C10_SowHarvest
+
 \* ---------------------------------------------------------------------------------------------
 Alias == [l |-> l, pc |-> pc, nsub |-> nsub,
           ev |-> IF l > 1 THEN Trace[l - 1].ev ELSE "none",
